@@ -226,36 +226,31 @@ def check_variables(ctx):
             if r is None:
                 continue
             sigil = '@@' if tok == 'SYSTEM_VARIABLE' else '@'
-            # decoder: lexer action steps (if it rewrites) or parser helper
-            steps_fn = None
-            if r.func is not None and any(isinstance(n, ast.Attribute) and n.attr == 'value' and isinstance(n.ctx, ast.Store)
-                                          for n in ast.walk(r.func)):
-                steps_fn = (lex.file, r.func, 't.value')
-            else:
-                prods = [p for p in g.productions[1:] if p.rhs == (tok,)]
-                for p in prods:
-                    for n in ast.walk(p.func):
-                        if isinstance(n, ast.Call) and isinstance(n.func, ast.Name) and n.args and norm(n.args[0]) in (f'p.{tok}', 'p[0]'):
-                            hf, h = find_helper(ctx, n.func.id, g.file)
-                            if h is not None:
-                                steps_fn = (hf, h, h.args.args[0].arg)
-            ctx.need(steps_fn is not None, f'{d}: decoder of {tok} not found')
-            hf, fn, var = steps_fn
+            # decoder = the lexer action of the token (if it has one), then the helper the grammar action applies to the token value (if any); both interpreted
+            helper = None
+            for p in [p for p in g.productions[1:] if p.rhs == (tok,)]:
+                for n in ast.walk(p.func):
+                    if isinstance(n, ast.Call) and isinstance(n.func, ast.Name) and n.args and norm(n.args[0]) in (f'p.{tok}', 'p[0]'):
+                        hf_, h_ = find_helper(ctx, n.func.id, g.file)
+                        if h_ is not None:
+                            helper = (hf_, h_)
+            ctx.need(r.func is not None or helper is not None, f'{d}: decoder of {tok} not found')
+            hf, fn = (lex.file, r.func) if helper is None else helper
 
-            def decode(text, fn=fn, var=var, hf=hf):
-                # the decoder (lexer action or grammar helper) interpreted on the token text
+            def decode(text, helper=helper, lexfn=r.func, lexfile=lex.file):
                 from ..interp import Interp, Obj, Raised, Env
-                it = Interp({}, {})
-                it.module = ctx.src.tree(hf)
                 try:
-                    if var == 't.value':
+                    v = text
+                    if lexfn is not None:
                         tokobj = Obj('Token', value=text, type=tok, lineno=1, index=0, end=len(text))
-                        out = it.call_function(fn, [Obj('Lexer'), tokobj], {}, Env())
+                        out = Interp.for_file(ctx.src, lexfile, {}, {}).call_function(lexfn, [Obj('Lexer'), tokobj], {}, Env())
                         out = out if out is not None else tokobj
-                        return out.value if isinstance(out, Obj) else out
-                    return it.call_function(fn, [text], {}, Env())
-                except Raised as r:
-                    return f'<raises {r.exc_name}>'
+                        v = out.value if isinstance(out, Obj) else out
+                    if helper is not None:
+                        v = Interp.for_file(ctx.src, helper[0], {}, {}).call_function(helper[1], [v], {}, Env())
+                    return v
+                except Raised as r_:
+                    return f'<raises {r_.exc_name}>'
             probes = []
             for name in ['a', 'a.b', 'A_b$', 'x y', 'a-b', "it's", 'q"q', 'b`t', '@x', 'x@', "x'", 'a.b c', 'v1x', 'a1', '_9', 'a$b', 'x.y2', 'A', '1a']:
                 for form in (name, f"'{name}'", f'"{name}"', f'`{name}`'):
@@ -510,21 +505,20 @@ def check_identifier_paths(ctx):
                        f'becomes a separator', file=g.file, line=r.lineno, witness='select `a.b` from t')
     # path_str_to_parts itself keeps back-quoted segments whole and does not touch case
     tree = ctx.src.tree(IDENT)
-    rx = None
-    for n in tree.body:
-        if isinstance(n, ast.Assign) and norm(n.targets[0]) == 'path_str_parts_regex' and isinstance(n.value, ast.Call):
-            rx = const_str(n.value.args[0])
-    ctx.need(rx is not None, 'identifier.py: path_str_parts_regex not found')
     fn = None
     for n in tree.body:
         if isinstance(n, ast.FunctionDef) and n.name == 'path_str_to_parts':
             fn = n
     ctx.need(fn is not None, 'path_str_to_parts not found')
-    strip_bt = any(isinstance(x, ast.Call) and isinstance(x.func, ast.Attribute) and x.func.attr == 'strip' and x.args
-                   and const_str(x.args[0]) == '`' for x in ast.walk(fn))
-    cases = [('a.b', ['a', 'b']), ('`a.b`.c', ['a.b', 'c']), ('A.B', ['A', 'B']), ('`x y`', ['x y']), ('a.`b.c`.d', ['a', 'b.c', 'd'])]
+    cases = [('a.b', ['a', 'b']), ('`a.b`.c', ['a.b', 'c']), ('A.B', ['A', 'B']), ('`x y`', ['x y']), ('a.`b.c`.d', ['a', 'b.c', 'd']), ('abc', ['abc']),
+             ('`a`.`B c`', ['a', 'B c']), ('a1.$b', ['a1', '$b'])]
+    from ..interp import Interp, Raised, Env
     for text, want in cases:
-        got = [m.group(0).strip('`') if strip_bt else m.group(0) for m in re.finditer(rx, text)]
+        try:
+            got = Interp.for_file(ctx.src, IDENT, {}, {}).call_function(fn, [text], {}, Env())
+            got = list(got) if isinstance(got, (list, tuple)) else repr(got)
+        except Raised as r_:
+            got = f'<raises {r_.exc_name}>'
         ctx.ob('C04.path-split', text, got == want,
                f'path_str_to_parts({text!r}) gives {got}, expected {want}: names are split only at unquoted dots and keep their case',
                file=IDENT, line=fn.lineno)
